@@ -28,6 +28,29 @@ def tag(v):  # user function producing a categorical (strings) from a string col
 NAMESPACE = {"dbl": dbl, "shift1": shift1, "tag": tag}
 
 
+def ensure_user_transform():
+    """A user-registered stateful transform (formulae.transforms.register_stateful_transform):
+    minmax(x) = (x - min) / (max - min) with min / max remembered from the first call."""
+    from formulae.transforms import TRANSFORMS, register_stateful_transform
+
+    if "minmax" in TRANSFORMS:
+        return
+
+    class MinMax:
+        __transform_name__ = "minmax"
+
+        def __init__(self):
+            self.lo = None
+            self.hi = None
+
+        def __call__(self, x):
+            if self.lo is None:
+                self.lo, self.hi = float(np.min(x)), float(np.max(x))
+            return (np.asarray(x, dtype=float) - self.lo) / (self.hi - self.lo)
+
+    register_stateful_transform(MinMax)
+
+
 class Atom:
     def __init__(self, text, kind, vars_, name=None, fn=None, width=1, stateful=False, pointwise=True,
                  coding="treatment", ref=None, col=None, levels_from=None, explicit_levels=None, level_map=None):
@@ -115,6 +138,9 @@ NUM_ATOMS = {
                       fn=lambda t, d: (d["k"].to_numpy() == t["k"].to_numpy().min()).astype(float)),
     "B(cnt)": dict(vars_=["cnt"], stateful=True,
                    fn=lambda t, d: (d["cnt"].to_numpy() == t["cnt"].to_numpy().min()).astype(float)),
+    "minmax(z)": dict(vars_=["z"], stateful=True,
+                      fn=lambda t, d: (d["z"].to_numpy(dtype=float) - t["z"].to_numpy(dtype=float).min())
+                      / (t["z"].to_numpy(dtype=float).max() - t["z"].to_numpy(dtype=float).min())),
     # multi-column stateful transforms: no closed-form oracle here (C14 owns their values)
     "bs(x, df=4)": dict(vars_=["x"], stateful=True, width=4, fn=None),
     "bs(z, df=5, degree=2)": dict(vars_=["z"], stateful=True, width=5, fn=None),
@@ -214,6 +240,7 @@ def case_frame(fr):
 
 
 def namespace(meta):
+    ensure_user_transform()
     ns = dict(NAMESPACE)
     ns["kn_x"] = [-0.4, 0.0, 0.3]  # interior knots for x ~ N(0, 1); small frames may not cover them (counted)
     for col, mt in meta.items():
@@ -316,7 +343,7 @@ PROFILES = {
     "stateful": dict(
         num=["x", "z", "w", "np.log(w)", "center(x)", "scale(x)", "standardize(z)", "center(np.log(w))",
              "I(center(x) ** 2)", "scale(center(z))", "bs(x, df=4)", "bs(z, df=5, degree=2)", "poly(x, 2)",
-             "bs(x, knots=kn_x)", "bs(x, knots=kn_x, degree=2, intercept=True)", "binary(k)", "B(cnt)",
+             "bs(x, knots=kn_x)", "bs(x, knots=kn_x, degree=2, intercept=True)", "binary(k)", "B(cnt)", "minmax(z)",
              "bs(z, df=4, lower_bound=-10, upper_bound=20)", "poly(x, 4)",
              "poly(z, 3, raw=True)", "dbl(x)", "{x * 2}", "shift1(z, by=3)"],
         cat=["s", "h", "o", "cu", "co", "C(k)", "C(s)", "T(h)", "S(s)", "C(h, Sum)", "`c:1`", "I(s)", "tag(h)"],
